@@ -4,6 +4,7 @@ CONSTANTS
   FaultFields <- Fault_quick
   ZeroId = 0
   HdrCuts <- HdrCuts_all
+  ExciseMax = 12
 CHECK_DEADLOCK FALSE
 INVARIANT TypeOK
 INVARIANT C09_RoundTrip
